@@ -210,7 +210,7 @@ VERIF_MAIN_BEGIN
         tinyjambu_prng_state_p_t *pp = (tinyjambu_prng_state_p_t *)&pub;
         unsigned char e[32];
         int r;
-        for (unsigned i = 0; i < 12; ++i) pub.s[i] = IN_U64(raw[i]);   /* arbitrary prior contents */
+        for (unsigned i = 0; i < 12; ++i) pub.s[i] = IN_U64_AT(raw, i);   /* arbitrary prior contents */
         IN_BYTES(data, data, CUSTOMLEN);
         r = tinyjambu_prng_init_user(&pub, entropy_cb, &cookie, data, CUSTOMLEN);
         CHECK(nreq == 1 && seen_size[0] == 32 && seen_ud[0] == &cookie, "init makes exactly one 32-byte request");
@@ -241,7 +241,7 @@ VERIF_MAIN_BEGIN
     {
         static tinyjambu_prng_state_t a, b;
         int ra, rb, calls_a;
-        for (unsigned i = 0; i < 12; ++i) { a.s[i] = IN_U64(raw[i]); b.s[i] = IN_raw[i]; }
+        for (unsigned i = 0; i < 12; ++i) { a.s[i] = IN_U64_AT(raw, i); b.s[i] = IN_raw[i]; }
         IN_BYTES(data, data, CUSTOMLEN);
         ra = tinyjambu_prng_init(&a, data, CUSTOMLEN);
         calls_a = trng_calls;
